@@ -34,6 +34,9 @@ type Report struct {
 	Sites map[string]int // rule name ("R1".."R6") -> number of sites rewritten
 	Files int            // files rewritten
 	Notes []string
+	// GoBodies lists the function literals started by go statements: sites inside
+	// them are executed by library-owned goroutines only.
+	GoBodies []GoBody
 }
 
 // UnsupportedError reports a construct that cannot be rewritten faithfully.
@@ -161,6 +164,7 @@ func Run(dir string) (*Report, error) {
 				syncFiles[s] = append(syncFiles[s], rel(dir, name))
 			}
 			rep.Notes = append(rep.Notes, fc.notes...)
+			rep.GoBodies = append(rep.GoBodies, fc.goBodies...)
 			if len(fc.edits) == 0 {
 				continue
 			}
@@ -188,6 +192,15 @@ func Run(dir string) (*Report, error) {
 		return nil, err
 	}
 	if err := os.WriteFile(filepath.Join(hookDir, "hook.go"), hookSrc, 0o644); err != nil {
+		return nil, err
+	}
+	var gb strings.Builder
+	gb.WriteString("package zzsimhook\n\n// GoBodyRange is the line range of a function literal started by a go statement.\ntype GoBodyRange struct {\n\tFile     string\n\tFrom, To int\n}\n\n// GoBodyRanges is generated by the instrumenter.\nvar GoBodyRanges = []GoBodyRange{\n")
+	for _, g := range rep.GoBodies {
+		fmt.Fprintf(&gb, "\t{%q, %d, %d},\n", g.File, g.From, g.To)
+	}
+	gb.WriteString("}\n")
+	if err := os.WriteFile(filepath.Join(hookDir, "gobodies.go"), []byte(gb.String()), 0o644); err != nil {
 		return nil, err
 	}
 	rep.Files = len(out)
@@ -252,6 +265,13 @@ type fileCtx struct {
 	parents     map[ast.Node]ast.Node
 	edits       []edit
 	seq, tmp    int
+	goBodies    []GoBody
+}
+
+// GoBody is the line range of a function literal started by a go statement.
+type GoBody struct {
+	File     string // "<import path>/<file base name>", as in site strings
+	From, To int
 }
 
 func (fc *fileCtx) off(p token.Pos) int { return fc.tf.Offset(p) }
